@@ -23,7 +23,8 @@ FMAX = B.constants.FLOAT_MAX
 
 RULE = (
     "Each run is one seeded history. synth/wide arms: capacity 1-12 (wide: up to 64), policy, cost alphabet and"
-    " op mix are swarm-chosen; ops are put(i,c)=cost[i]=c+insert(i), upd(i,c)=update on a never-queued id or an"
+    " op mix are swarm-chosen; ops are put(i,c)=cost[i]=c+insert(i) of an id that is not queued (never queued, or removed"
+    " earlier), upd(i,c)=update on a never-queued id or an"
     " improving/equal update of a queued id, pop, plus the fault ops pop-on-empty and insert-on-full; every"
     " history ends with a drain and one extra pop. real arm: one fit of a supervised / semi-supervised /"
     " KNN-supervised / unsupervised model on a small world with a recording Heap subclass installed; every op"
@@ -38,10 +39,13 @@ REAL = [
 ]
 STUBBED = ["real arm: the name `Heap` in the four model modules is bound to a pass-through recording subclass of the tree's Heap (behaviour unchanged)", "logging disabled"]
 ASSUMPTIONS = [
-    "Quantifier as stated in C05: ids < capacity, each id inserted at most once per heap, updates of queued ids never worsen the cost, no NaN costs.",
+    "Quantifier as stated in C05: ids < capacity, an id is inserted only while it is not queued (re-insertion of a removed id through insert is exercised; update of a removed id is not), updates of queued ids never worsen the cost, no NaN costs.",
     "A rejected operation is recognised as 'failure reported' when insert returns a falsy value / remove returns False, None or a negative integer.",
     "Exploration by seeded sampling: a clean batch is evidence, not proof.",
 ]
+
+
+EXPECTED_PROBES = ['removed_id_inserted_again', 'heap_emptied_by_pop', 'heap_full', 'heap_refilled_after_emptying', 'internal_arrays_inconsistent_while_behaviour_ok', 'pop_with_tie_at_extremum', 'real_fit_', 'real_trace_precondition_breach', 'real_trace_seam_not_engaged', 'real_update_of_queued', 'update_as_insert', 'update_strictly_improves']
 
 
 def arms(tier):
@@ -87,9 +91,13 @@ def gen_case(rng, arm, tier, k=0):
     queued = {}
     fresh = list(range(size))
     rng.shuffle(fresh)
+    removed = []
+    w_reins = rng.choice((0, 0, 1, 2))  # re-insert an id that was removed earlier (insert only)
     ops = []
     for step in range(length):
         choices = []
+        if removed and w_reins:
+            choices += [("reput", w_reins)]
         if fresh:
             choices += [("put", w_put * (4 if fill_first and step < size else 1)), ("updn", w_updn)]
         if queued:
@@ -97,7 +105,7 @@ def gen_case(rng, arm, tier, k=0):
         choices += [("pop", w_pop if queued else w_fault)]
         if len(queued) == size:
             choices += [("insf", w_fault * 3)]
-        if not fresh and not queued and ops and ops[-1] == ["pop"]:
+        if not fresh and not queued and not (removed and w_reins) and ops and ops[-1] == ["pop"]:
             break  # nothing left but repeating the same fault on an idle heap
         tot = sum(w for _, w in choices)
         if tot <= 0:
@@ -108,7 +116,12 @@ def gen_case(rng, arm, tier, k=0):
             r -= w
             if r < 0:
                 break
-        if kind == "put":
+        if kind == "reput":
+            i = removed.pop(rng.randrange(len(removed)))
+            c = _cost(rng, alpha)
+            queued[i] = c
+            ops.append(["put", i, c])
+        elif kind == "put":
             i = fresh.pop()
             c = _cost(rng, alpha)
             queued[i] = c
@@ -138,6 +151,7 @@ def gen_case(rng, arm, tier, k=0):
                 for i in sorted(queued):
                     if queued[i] == ext:
                         del queued[i]
+                        removed.append(i)
                         break
             ops.append(["pop"])
         else:
@@ -160,6 +174,7 @@ class PQModel:
         self.policy = policy
         self.queued = {}
         self.ever = set()
+        self.inserted = []
         self.returned = []
         self.pops = 0
         self.upd_queued = 0
@@ -242,14 +257,17 @@ def run_synth(case, out):
         ctx = "op #%d %s" % (n, op)
         if kind == "put":
             i, c = op[1], op[2]
-            if i in m.ever or not (0 <= i < size):
+            if i in m.queued or not (0 <= i < size):
                 continue
+            if i in m.ever:
+                bump(out.probes, "removed_id_inserted_again")
             h.cost[i] = c
             r = lib_call("insert", h.insert, i)
             if not r:
-                raise Stop(violation("insert-reported-failure", "insert(%d) into a heap holding %d of %d returned %r (%s)" % (i, len(m.queued), size, r, ctx), policy=policy))
+                raise Stop(violation("insert-reported-failure", "insert(%d) into a heap holding %d of %d returned %r (%s)" % (i, len(m.queued), size, r, ctx), policy=policy, reinsert=i in m.ever))
             m.queued[i] = c
             m.ever.add(i)
+            m.inserted.append(i)
             norm.append(("put", i, c))
             log.add("put", i, c)
         elif kind == "upd":
@@ -270,6 +288,7 @@ def run_synth(case, out):
                 lib_call("update", h.update, i, c)
                 m.queued[i] = c
                 m.ever.add(i)
+                m.inserted.append(i)
                 bump(out.probes, "update_as_insert")
                 norm.append(("updn", i, c))
             else:
@@ -328,8 +347,8 @@ def run_synth(case, out):
     m.check_flags(h, "after drain")
     out.steps += 1
     # history check: exactly once
-    if sorted(m.returned) != sorted(m.ever):
-        raise Stop(violation("exactly-once", "inserted ids %s but removals returned %s" % (sorted(m.ever), sorted(m.returned)), policy=policy))
+    if sorted(m.returned) != sorted(m.inserted):
+        raise Stop(violation("exactly-once", "insertions %s but removals returned %s" % (sorted(m.inserted), sorted(m.returned)), policy=policy))
     out.digest = log.hexdigest()
     order = sorted(c for c in {o[2] for o in norm if len(o) > 2})
     rank = {c: k for k, c in enumerate(order)}
@@ -459,6 +478,7 @@ def make_recording_heap(Heap, traces, out, log, states):
                 return r
             t.m.queued[p] = c
             t.m.ever.add(p)
+            t.m.inserted.append(p)
             t.norm.append(("put", p, c))
             t.log.add("put", p, c)
             self._after("model insert(%d)" % p)
@@ -493,6 +513,7 @@ def make_recording_heap(Heap, traces, out, log, states):
             elif p not in t.m.ever:
                 t.m.queued[p] = cost
                 t.m.ever.add(p)
+                t.m.inserted.append(p)
                 bump(out.probes, "update_as_insert")
                 t.norm.append(("updn", p, cost))
             else:
@@ -584,8 +605,8 @@ def run_real(case, out):
         # the model code drains every heap it creates (while not h.is_empty())
         if t.m.queued:
             raise Stop(violation("exactly-once", "model code stopped with ids %s still queued (is_empty lied or elements were lost)" % sorted(t.m.queued), policy=t.m.policy, workload="real:" + kind))
-        if sorted(t.m.returned) != sorted(t.m.ever):
-            raise Stop(violation("exactly-once", "inserted ids %s but removals returned %s" % (sorted(t.m.ever), sorted(t.m.returned)), policy=t.m.policy, workload="real:" + kind))
+        if sorted(t.m.returned) != sorted(t.m.inserted):
+            raise Stop(violation("exactly-once", "insertions %s but removals returned %s" % (sorted(t.m.inserted), sorted(t.m.returned)), policy=t.m.policy, workload="real:" + kind))
         pops += t.m.pops
         upd += t.m.upd_queued
         order = sorted({o[2] for o in t.norm if len(o) > 2})
